@@ -1,0 +1,13 @@
+//go:build verif
+
+// Contracts for the govc verifier (see /verif/DESIGN.md). Comment-only file.
+package halts
+
+//@ # abstract view: the halt-vote record for a height (nil when there is none)
+//@ ghost haltModel(hb *HaltBlocks, h uint64) *Model
+
+//@ # representation axiom (assumed): the lazily loading getter returns the view and changes nothing observable
+//@ func (*HaltBlocks).GetHaltBlocks
+//@   trusted
+//@   ensures result == haltModel(hb, height)
+//@   modifies mapof(hb.list)
